@@ -69,8 +69,19 @@ def run_inspect(case, path):
     with open(path, 'r', encoding='utf-8') as f:
         cells = next(csv.reader(f), None)
     from tally.commands.inspect import cmd_inspect
+    from tally.parsers import auto_detect_csv_format
     buf, err = io.StringIO(), io.StringIO()
     res = {'cells': cells}
+    # the public auto-detection entry point on the same file (what inspect is expected to report for a CSV file)
+    try:
+        sp = auto_detect_csv_format(path)
+        res['direct'] = {'date': sp.date_column, 'fmt': sp.date_format, 'desc': sp.description_column,
+                         'amount': sp.amount_column, 'loc': sp.location_column}
+    except ValueError:
+        res['direct'] = None
+    except Exception as e:  # noqa
+        res['direct'] = None
+        res['direct_crash'] = f'{type(e).__name__}: {e}'[:200]
     try:
         with contextlib.redirect_stdout(buf), contextlib.redirect_stderr(err):
             cmd_inspect(Namespace(file=path, rows=2))
@@ -79,6 +90,11 @@ def run_inspect(case, path):
     except Exception as e:  # noqa
         res['crash'] = f'{type(e).__name__}: {e}'[:200]
     out = buf.getvalue()
+    m = re.search(r'^  Detected type: (.*)$', out, re.M)
+    res['file_type'] = m.group(1) if m else None
+    head = out[:out.index('Auto-Detection Results:')] if 'Auto-Detection Results:' in out else out
+    # format strings inspect prints outside the auto-detection block (e.g. under "Suggested config:")
+    res['other_formats'] = [{'format': f, 'reparse': run_parse(f, None)} for f in re.findall(r'^\s*format: "(.*)"\s*$', head, re.M)]
     if 'Auto-Detection Results:' not in out:
         res['section'] = False
         res['tail'] = out[-300:]
